@@ -30,7 +30,9 @@ RULE = (
     "grid and data dictionary and the second set of matrices is checked; grid, stiffness, "
     "coupling tensor and bc arrays are digested before / after every discretize (purity); valid "
     "NON-CONVEX grids (5 dart-quadrilateral grids); `partition_arguments` num_subproblems in "
-    "{1 (main alphabet), 2, 3} on one grid per family, C/T(3,2)@map and a dart grid"
+    "{1 (main alphabet), 2, 3} on one grid per family, C/T(3,2)@map and a dart grid; sequences: ONE "
+    "Biot object (and stiffness / coupling objects) used for two grids in a row (same sizes / "
+    "different topology; same topology / different geometry; the same grid object moved)"
 )
 ASSUMPTIONS = [
     "all mechanical boundary faces Dirichlet with data u(x_f); constant isotropic stiffness",
@@ -133,15 +135,30 @@ def cases(tier):
     part_grids = fam + [{"kind": "cart", "n": [3, 2], "map": "shear"}, {"kind": "tri", "n": [3, 2], "map": "skew"}, DARTS[0]]
     out += [{"grid": sp, "mu": mu, "lam": lam, "inverter": "python", "nsub": k}
             for sp in part_grids for k in (2, 3) for mu, lam in ml]
+    # ONE Biot object (and stiffness / coupling objects) reused for two grids
+    out += [{"grid": s1, "seq": [kind, s1, s2], "mu": mu, "lam": lam, "inverter": "python"}
+            for kind, s1, s2 in G.SEQ_PAIRS_2D + G.SEQ_PAIRS_3D for mu, lam in ml]
     return out
 
 
 def run_case(case) -> Outcome:
+    if "seq" not in case:
+        return _run_single(case)
+    # one Biot object (and, sizes permitting, the same stiffness / coupling objects) for both grids
+    out = Outcome()
+    shared = {"kind": case["seq"][0], "step": 0}
+    for spec in case["seq"][1:]:
+        shared["step"] += 1
+        out.merge(_run_single(dict(case, grid=spec), shared))
+    return out
+
+
+def _run_single(case, shared=None) -> Outcome:
     import porepy as pp
 
     out = Outcome()
     spec, mu, lam = case["grid"], case["mu"], case["lam"]
-    g = G.build(spec)
+    g = G.get_grid(spec, shared)
     d, nf, nc = g.dim, g.num_faces, g.num_cells
     bf = G.boundary_faces(g)
     xc, xf, nrm = g.cell_centers[:d].copy(), g.face_centers[:d].copy(), g.face_normals[:d].copy()
@@ -172,14 +189,21 @@ def run_case(case) -> Outcome:
                 "iso": pp.SecondOrderTensor(ALPHAS["iso"] * np.ones(nc))}
     bc = pp.BoundaryConditionVectorial(g, bf, ["dir"] * bf.size)
     stiff = pp.FourthOrderTensor(mu * np.ones(nc), lam * np.ones(nc))
+    if shared is not None:
+        gcls += f"/seq-{shared['kind']}{shared['step']}"
+        base["sequence"] = [shared["kind"], shared["step"]]
+        if shared.get("nc") == nc:
+            stiff, coupling = shared["stiff"], shared["coupling"]
+        shared.update(nc=nc, stiff=stiff, coupling=coupling)
     prm = {"fourth_order_tensor": stiff, "bc": bc, "inverter": case["inverter"], "scalar_vector_mappings": coupling}
     if eta is not None:
         prm["mpsa_eta"] = eta
     if nsub is not None:
         prm["partition_arguments"] = {"num_subproblems": nsub}
     data = pp.initialize_data({}, KW, prm)
-    disc = pp.Biot(KW)
+    disc = shared.setdefault("disc", pp.Biot(KW)) if shared is not None else pp.Biot(KW)
     dig0 = G.digest(g, stiff, bc, coupling["iso"])
+    case = dict(case, _step=shared["step"] if shared else 0)
     for npass in range(2 if case.get("reuse") else 1):
         _one_pass(out, pp, disc, g, data, coupling, dig0, (stiff, bc), npass, base, gcls, gname, korth, case,
                   d, nf, nc, bf, xc, xf, nrm, vol, hmin, amax, vmax, mu, lam, eta)
@@ -226,7 +250,7 @@ def _one_pass(out, pp, disc, g, data, coupling, dig0, args, npass, base, gcls, g
             tol = TOL * alpha * vmax * (float(np.abs(Gm).max()) + umax / hmin)
             trace = "div" if abs(np.trace(Gm)) > 0 else ("shear" if kind == "lin" else kind)
             nontrivial = kind != "transl" and (alpha != 1.0 or not korth)
-            k = (gname, mu, lam, key, label, case["inverter"], eta, npass, case.get("nsub")) if nontrivial else None
+            k = (gname, mu, lam, key, label, case["inverter"], eta, npass, case.get("nsub"), case.get("_step")) if nontrivial else None
             err = np.abs(got - exp)
             if not np.all(np.isfinite(got)) or err.max() > tol:
                 c = int(np.nanargmax(err)) if np.all(np.isfinite(err)) else 0
@@ -241,7 +265,7 @@ def _one_pass(out, pp, disc, g, data, coupling, dig0, args, npass, base, gcls, g
             got = (sg @ (p * np.ones(nc))).reshape((d, nf), order="F")
             exp = -alpha * p * nrm
             tol = TOL * alpha * abs(p) * amax
-            k = (gname, mu, lam, key, f"p={p}", case["inverter"], eta, npass, case.get("nsub")) if (alpha != 1.0 or not korth) else None
+            k = (gname, mu, lam, key, f"p={p}", case["inverter"], eta, npass, case.get("nsub"), case.get("_step")) if (alpha != 1.0 or not korth) else None
             err = np.abs(got - exp)
             if not np.all(np.isfinite(got)) or err.max() > tol:
                 f = int(np.nanargmax(err.max(axis=0))) if np.all(np.isfinite(err)) else 0
